@@ -1,9 +1,9 @@
-"""PROTOTYPE C02 on the shared grid."""
+"""C02 on the shared grid (+ a second wave: multi-site files re-run with one rewritten line excluded, so partially applied rewrites are judged too)."""
 import base64, os, sys, warnings
 warnings.simplefilter("ignore")
 from vf import oracles as O
 from vf.checks import grid
-from vf.runner import run_check, Violation
+from vf.runner import run_check, Violation, line_filter_followups, tier_seed
 unb = base64.b64decode
 
 def judge(job, res):
@@ -23,11 +23,11 @@ def judge(job, res):
         st["fired:" + job["cid"]] += 1
         if not ua <= ub:
             new = sorted(ua - ub)
-            v.append(Violation("C02", f"{job['cid'].split('/')[1]}/new-unbound", f"rewrite introduces unresolved names {new}", {"codemod": job["cid"], "labels": lab, "before": bt, "after": at, "new_unresolved": new}))
+            v.append(Violation("C02", f"{job['cid'].split('/')[1]}/new-unbound" + ("/one-site-line-excluded" if "excluded_line" in job else ""), f"rewrite introduces unresolved names {new}", {"codemod": job["cid"], "labels": lab, "before": bt, "after": at, "new_unresolved": new}))
     return v, st, nt
 
 def main():
-    return run_check("C02", "exploration", grid.plan, judge, "grid of codemod x seed x context x import style x layout; non-trivial = file rewritten and both scope sets known", 50, deciding_counters=("pipe_libcst",), module=__name__)
+    return run_check("C02", "exploration", grid.plan, judge, "grid of codemod x seed x context x import style x layout; non-trivial = file rewritten and both scope sets known", 50, deciding_counters=("pipe_libcst",), module=__name__, followup=line_filter_followups, followup_cap=(400 if tier_seed()[0] == "quick" else 3000))
 
 if __name__ == "__main__":
     sys.exit(main())
